@@ -107,6 +107,7 @@ Definition out_key (o : out) : N :=
   | OFail r _ => 3 * 1099511627776 + r
   | OReq r _ _ _ => 4 * 1099511627776 + r
   | OWire c _ _ => 5 * 1099511627776 + c
+  | OWireR c _ _ => 5 * 1099511627776 + c
   | OBind c _ => 6 * 1099511627776 + c
   | OFeed r _ => 7 * 1099511627776 + r
   | OOpen sid _ => 8 * 1099511627776 + sid
@@ -121,6 +122,7 @@ Definition enc_out (o : out) : list N :=
   | OFail r c => [3; r; c]
   | OReq r p l t => [4; r; p; l; canon_tag l t]
   | OWire c l t => [5; c; l; canon_tag l t]
+  | OWireR c l t => [5; c; l; canon_tag l t]
   | OBind _ _ => []
   | OFeed r ok => [7; r; b2n ok]
   | OOpen sid p => [8; sid; p]
